@@ -407,7 +407,7 @@ def run_bounded(rep: Report, tier: str) -> None:
         # in thorough the complete small scopes stay first so that a time limit can only cut the big ones
     viols = []
     kinds = {}
-    nsamples = 0
+    all_samples = []
     for status, r in pmap(_work, items, chunk=4):
         if status == "crash":
             rep.crash("C06 worker: " + r[:1500])
@@ -427,10 +427,11 @@ def run_bounded(rep: Report, tier: str) -> None:
         for nm, c in r["kinds"].items():
             kinds[nm] = kinds.get(nm, 0) + c
         viols.extend(r["viols"])
-        for s in r["samples"]:
-            if nsamples < 6:
-                nsamples += 1
-                rep.sample(s)
+        all_samples.extend(r["samples"])
+    # samples: deterministic choice (results arrive in scheduling order)
+    all_samples.sort(key=lambda c: (-len(c["inputs"]), json.dumps(c, sort_keys=True)))
+    for smp in all_samples[:: max(1, len(all_samples) // 6)][:6]:
+        rep.sample(smp)
     for name, m in meta.items():
         rep.scope(
             name, m["cases"], m["exh"] and m["skipped"] == 0,
